@@ -98,6 +98,9 @@ AbsTails == { <<"canary2.txt">>, <<"secret.txt">>, <<"parent", "canary.txt">>, <
               <<"parent", "root", "a.txt">>, <<"parent", "..", "canary2.txt">> }
 AbsHeads == { <<>>, <<"">>, <<"", "">>, <<"", "", "">>, <<"sub", "", "">>, <<"..", "", "">>, <<".", "", "">> }
 AbsSeqs == { h \o <<"ABS">> \o t : h \in AbsHeads, t \in AbsTails }
+\* the tar root also holds members whose recorded NAMES point out of the archive ("../zz_out.txt", "../../zz_out2.txt")
+OutMemberSeqs == { <<"..", "zz_out.txt">>, <<"", "..", "zz_out.txt">>, <<".", "..", "zz_out.txt">>, <<"sub", "..", "..", "zz_out.txt">>,
+                   <<"..", "..", "zz_out2.txt">>, <<"..", "", "..", "zz_out2.txt">>, <<"%2e%2e", "zz_out.txt">> }
 Mounts == {"", "pre", "tar"}
 \* the file a plain request must be answered with (only stated for paths without dot / empty / encoded segments)
 Target(segs) ==
@@ -117,7 +120,7 @@ Init ==
             /\ Emit([k |-> "tile", inst |-> i, flags |-> Instances[i], src |-> Sources[s], tiles |-> SetToSeq(SrvTiles),
                      z |-> CoordFix(q)[1], x |-> CoordFix(q)[2], y |-> CoordFix(q)[3],
                      accept |-> TokSeq(S, FALSE), header |-> Render(S, rd)])
-    ELSE \E m \in Mounts, segs \in SegSeqs \cup AbsSeqs :
+    ELSE \E m \in Mounts, segs \in SegSeqs \cup AbsSeqs \cup OutMemberSeqs :
             /\ c = <<m, segs>>
             /\ Emit([k |-> "static", mount |-> m, segs |-> segs, target |-> Target(segs)])
 Next == UNCHANGED vars
